@@ -464,6 +464,23 @@ def param_scripts():
     add(["fn f(a) { a = 5; }", "o := {\"k\": 1}", "f(o.k)", "xs := [1]", "f(xs[0])", "print([o, xs])"], [[{"k": 1}, [1]]],
         "slot-argument")
     add(["fn f(p) { p = 1; return p; }", "fn g(p) { f(p); return p; }", "print(g(9))"], [9], "same-name-other-function")
+    # arguments are evaluated once each, left to right, and a spread argument contributes what its list holds when it is
+    # reached; the leftmost failing argument is the one reported
+    add(["xs := [1, 2]", "fn bump() { xs[0] = 100; return 0; }", "fn show(a, b, c) { print([a, b, c]); }", "show(xs.., bump())", "print(xs)"],
+        [[1, 2, 0], [100, 2]], "spread-then-mutating-argument")
+    add(["xs := [1, 2]", "fn bump() { xs[0] = 100; return 0; }", "fn show(a, b, c) { print([a, b, c]); }", "show(bump(), xs..)"],
+        [[0, 100, 2]], "mutating-argument-then-spread")
+    add(["fn t(x) { print(x); return x; }", "fn show(..r) { print(r); }", "show(t(1), [t(2), t(3)].., t(4), [].., [t(5)]..)"],
+        [1, 2, 3, 4, 5, [1, 2, 3, 4, 5]], "each-argument-once-in-order")
+    sc = L.Script()
+    sc.stmt("fn t(x) { print(x); return x; }")
+    sc.stmt("fn show(..r) { print(r); }")
+    sc.expect(1)
+    sc.fail("show(t(1), 2.., t(3), zz_undefined)", "spread of a non-list is the leftmost failing argument")
+    sc.tags = ["params", "leftmost-failing-argument", "err"]
+    out.append(sc.source({"tags": sc.tags}))
+    add(["o := {\"name\": \"b\", \"hi\": fn () { return $\"I am ${this.name}\"; }}", "print(o.hi())", "p := {\"name\": \"c\", \"hi\": o.hi}",
+         "print(p.hi())", "h := p.hi", "print(h())"], ["I am b", "I am c", "I am c"], "this-only-in-slots")
     return out
 
 
